@@ -391,3 +391,111 @@ Proof.
     pose proof (NoDup_incl_length Hnd Hincl) as Hl. rewrite seq_length in Hl. lia.
   - apply nth_error_None in E. rewrite (get_out_of_range _ _ E). simpl. lia.
 Qed.
+
+(** * parents have smaller ids in every built document (pre-order numbering) *)
+Definition par_ok (base : nat) (nodes : list node) : Prop :=
+  forall k nk p, nth_error nodes k = Some nk -> n_parent nk = Some p -> p < base + k.
+
+Lemma par_ok_app base l1 l2 : par_ok base l1 -> par_ok (base + length l1) l2 -> par_ok base (l1 ++ l2).
+Proof.
+  intros H1 H2 k nk p Hk Hp. destruct (Nat.lt_ge_cases k (length l1)) as [Hlt|Hge].
+  - rewrite nth_error_app1 in Hk by exact Hlt. eapply H1; eauto.
+  - rewrite nth_error_app2 in Hk by exact Hge. specialize (H2 _ _ _ Hk Hp). lia.
+Qed.
+
+Lemma par_ok_cons base n0 rest :
+  (forall p, n_parent n0 = Some p -> p < base) -> par_ok (S base) rest -> par_ok base (n0 :: rest).
+Proof.
+  intros H0 Hr [|k] nk p Hk Hp; simpl in Hk.
+  - inversion Hk; subst. specialize (H0 _ Hp). lia.
+  - specialize (Hr _ _ _ Hk Hp). lia.
+Qed.
+
+Lemma attr_node_parent env id a : n_parent (attr_node env id a) = Some id.
+Proof.
+  unfold attr_node. destruct a as [q v]. destruct (is_nsdecl_name q); [reflexivity|].
+  destruct (split_colon q) as [[p l]|]; reflexivity.
+Qed.
+
+Definition tree_par (lo : nat) (f : nat -> tree -> list node * nat) (c : tree) : Prop :=
+  forall cid ns nx, lo <= cid -> f cid c = (ns, nx) -> nx = cid + length ns /\ par_ok cid ns.
+
+Lemma build_children_par lo f ch : Forall (tree_par lo f) ch -> forall start cn ids next,
+  lo <= start -> build_children f ch start = (cn, ids, next) -> next = start + length cn /\ par_ok start cn.
+Proof.
+  induction 1 as [|c r Hc Hr IH]; intros start cn ids next Hlo H; cbn [build_children] in H.
+  - inversion H; subst. split; [simpl; lia|]. intros k nk p Hk. destruct k; discriminate.
+  - destruct (f start c) as [ns nx] eqn:Ef.
+    destruct (build_children f r nx) as [[ns' ids'] nx'] eqn:Er. inversion H; subst. clear H.
+    destruct (Hc _ _ _ Hlo Ef) as [Hnx Hp]. assert (Hlo' : lo <= nx) by lia.
+    destruct (IH _ _ _ _ Hlo' Er) as [Hn' Hp'].
+    split; [rewrite app_length; lia|]. apply par_ok_app; [exact Hp|]. rewrite <- Hnx. exact Hp'.
+Qed.
+
+Theorem build_tree_par : forall t env parent id impl nodes next,
+  parent < id -> build_tree env parent id impl t = (nodes, next) ->
+  next = id + length nodes /\ par_ok id nodes.
+Proof.
+  induction t as [q a ch IH|s|s|tg dt] using tree_ind2; intros env parent id impl nodes next Hlt H.
+  - rewrite build_tree_elem in H. cbv zeta in H.
+    set (attrs := impl ++ a) in *. set (env' := decls_of attrs ++ env) in *.
+    destruct (elem_names env' q) as [l u].
+    destruct (build_children (fun cid c => build_tree env' id cid [] c) ch (S id + length attrs))
+      as [[cn ids] nx] eqn:Ec.
+    inversion H; subst. clear H.
+    set (an := map (attr_node env' id) attrs).
+    assert (Hlen : length an = length attrs) by (unfold an; apply map_length).
+    assert (HF : Forall (tree_par (S id) (fun cid c => build_tree env' id cid [] c)) ch).
+    { eapply Forall_impl; [|exact IH]. intros c Hc cid ns nx0 Hlo Hb. eapply Hc; [|exact Hb]. lia. }
+    assert (Hst : S id <= S id + length attrs) by lia.
+    destruct (build_children_par _ _ _ HF _ _ _ _ Hst Ec) as [Hnx Hp].
+    split; [simpl; rewrite app_length; lia|].
+    apply par_ok_cons.
+    + cbn [n_parent]. intros p Hp0. inversion Hp0; subst. exact Hlt.
+    + apply par_ok_app.
+      * intros k nk p Hk Hp0. unfold an in Hk. apply nth_error_In in Hk as Hin.
+        apply in_map_iff in Hin. destruct Hin as [x [<- _]]. rewrite attr_node_parent in Hp0.
+        inversion Hp0; subst. lia.
+      * rewrite Hlen. exact Hp.
+  - inversion H; subst. split; [simpl; lia|]. intros [|k] nk p Hk Hp; simpl in Hk; [|destruct k; discriminate].
+    inversion Hk; subst. simpl in Hp. inversion Hp; subst. lia.
+  - inversion H; subst. split; [simpl; lia|]. intros [|k] nk p Hk Hp; simpl in Hk; [|destruct k; discriminate].
+    inversion Hk; subst. simpl in Hp. inversion Hp; subst. lia.
+  - inversion H; subst. split; [simpl; lia|]. intros [|k] nk p Hk Hp; simpl in Hk; [|destruct k; discriminate].
+    inversion Hk; subst. simpl in Hp. inversion Hp; subst. lia.
+Qed.
+
+Lemma par_ok_get d : par_ok 0 d -> forall x p, parent_of d x = Some p -> p < x.
+Proof.
+  intros H x p Hp. unfold parent_of in Hp. destruct (nth_error d x) as [nx|] eqn:E.
+  - rewrite (get_nth_error _ _ _ E) in Hp. exact (H _ _ _ E Hp).
+  - apply nth_error_None in E. rewrite (get_out_of_range _ _ E) in Hp. discriminate.
+Qed.
+
+Definition acc_par (acc : list node * list nat * nat * bool) : Prop :=
+  let '(ns, _, nx, _) := acc in nx = 1 + length ns /\ par_ok 1 ns.
+
+Lemma doc_step_par acc t : acc_par acc -> acc_par (doc_step acc t).
+Proof.
+  destruct acc as [[[ns ids] nx] seen]. intros [Hnx Hp]. unfold doc_step.
+  match goal with |- context [build_tree _ 0 nx ?i t] => set (impl := i) end.
+  destruct (build_tree [(s_xml, s_xml_uri)] 0 nx impl t) as [tn nx'] eqn:E.
+  assert (H0 : 0 < nx) by lia.
+  destruct (build_tree_par _ _ _ _ _ _ _ H0 E) as [Hn' Hp'].
+  unfold acc_par. split; [rewrite app_length; lia|].
+  apply par_ok_app; [exact Hp|]. replace (1 + length ns) with nx by lia. exact Hp'.
+Qed.
+
+Theorem build_doc_parent_lt top : forall x p, parent_of (build_doc top) x = Some p -> p < x.
+Proof.
+  apply par_ok_get. rewrite build_doc_eq.
+  assert (H0 : acc_par ([], [], 1, false)).
+  { split; [reflexivity|]. intros k nk p Hk. destruct k; discriminate. }
+  assert (H : acc_par (fold_left doc_step top ([], [], 1, false))).
+  { revert H0. generalize ([] : list node, [] : list nat, 1, false). induction top as [|t top IH]; intros acc Ha; simpl.
+    - exact Ha.
+    - apply IH. apply doc_step_par. exact Ha. }
+  destruct (fold_left doc_step top ([], [], 1, false)) as [[[ns ids] nx] seen].
+  destruct H as [_ Hp]. apply par_ok_cons; [|exact Hp].
+  cbn [n_parent]. intros p Hp0. discriminate.
+Qed.
